@@ -102,6 +102,14 @@ def run(ctx):
         return replay(ctx)
     ctx.extract(["E1_TokenKind", "E2_Keywords", "E3_Symbols"])
     ctx.prove("GoldModel.Props.C05")
+    if any(n.startswith("thm:build") for n, _, _ in ctx.broken()):
+        # the driver imports the property module (the oracle evaluates its definitions): without a
+        # fresh driver the correspondence would compare against a stale model — stop here
+        import re
+        out = getattr(ctx, "lean_out", "")
+        stm = re.findall(r"^error: (\S+:\d+:\d+: .*(?:\n(?!error|warning|info|trace|✖|✔|⚠).*){0,4})", out, re.M)
+        ctx.oblige("thm:statements-that-no-longer-check", False, "\n".join(stm[:6]) or out[-1500:])
+        return ctx.finish(rule=RULE)
     if not ctx.build_harness():
         return ctx.finish(rule=RULE)
     if not os.path.exists(core.DRIVER_BIN):
@@ -123,6 +131,7 @@ def run(ctx):
 
     stats = {"bad_corr": 0, "bad_extent": 0, "tokens": 0, "errors": 0, "with_error": 0, "multiline_literal": 0}
     first_dis = []
+    sigcount = {}
 
     def process(texts, counted):
         cases = ["lex =" + t for t in texts]
@@ -137,6 +146,9 @@ def run(ctx):
             if v != "ok":
                 for w in v.split(" "):
                     if w in SIGS:
+                        sigcount[w] = sigcount.get(w, 0) + 1
+                        if sigcount[w] > 300 and len(t) > 12:
+                            continue        # enough witnesses of this clause; keep only further short ones
                         ctx.oracle_fail("C05:" + w, "GoldLexer::lex output violates the %s clause of the property" % w,
                                         {"mode": "lex", "case": c, "text": core.unesc(t), "implementation": a, "model": b, "failed_clauses": v})
                     elif w == "extent-model":
@@ -166,8 +178,7 @@ def run(ctx):
         if "t,StringLiteral," in a and "%{a}" in a.split("t,StringLiteral,", 1)[1].split(",", 1)[0]:
             stats["multiline_literal"] += 1
     ctx.phase("exhaustive")
-    batch, lens = [], {}
-    small = True
+    batch = []
 
     def flush(b, counted):
         if b:
@@ -195,6 +206,8 @@ def run(ctx):
                "%d disagreements; first: %s" % (stats["bad_corr"], ctx.disagreements[0] if ctx.disagreements else ""))
     ctx.oblige("tie:spec-extent = model ghost extent (%d cases)" % ctx.evaluations, stats["bad_extent"] == 0,
                "%d cases; first: %s" % (stats["bad_extent"], first_dis[:1]))
+    if sigcount:
+        ctx.dist["oracle failures per clause (all cases)"] = dict(sigcount)
     ctx.phase("verdict")
     return ctx.finish(rule=RULE, extra={
         "exhaustive": True,
